@@ -257,7 +257,7 @@ def run_chunk(spec):
         (purity_case if only.get("purity") else run_case)(res, spec, only["idx"])
         return res.to_json()
     base = spec["chunk"] * 100000
-    wd = Watchdog(res, 60.0)
+    wd = Watchdog(res, 400.0)
     for j in range(spec["n"]):
         wd.arm("idx=%d" % (base + j))
         run_case(res, spec, base + j)
